@@ -14,7 +14,7 @@ PERIODIC_ASSUMPTION = ("PeriodicDiskRevolve: (wd+rd) < C(ram+1+T, T)*uf with the
 # per-class bounds of the whole-stream sweep: (n_max, options)
 SWEEP = {
     "quick": {
-        "Multistage": (14, {}), "Mixed": (16, {}), "TwoLevel": (10, {"bmax": 3, "passes": 2}),
+        "Multistage": (20, {}), "Mixed": (20, {}), "TwoLevel": (12, {"bmax": 3, "passes": 2}),
         "SingleDiskCopy": (16, {"passes": 3}), "SingleDiskMove": (16, {}),
         "HRevolve": (14, {"rmax": 2, "dmax": 2}), "Revolve": (16, {"rmax": 3}),
         "DiskRevolve": (14, {"rmax": 3}), "PeriodicDiskRevolve": (14, {"rmax": 2, "unwind": 3}),
